@@ -12,4 +12,4 @@ CONSTANTS
 INIT Init
 NEXT Next
 VIEW View
-INVARIANTS StorageImpliesAuthority AttackerTextNeverAuthorised NoForeignWrite NothingPersistsFromAbort RealmCodeRunsAtHome
+INVARIANTS StorageImpliesAuthority AttackerTextNeverAuthorised NoForeignWrite NothingPersistsFromAbort RealmCodeRunsAtHome ConstructOnlyAtHome
